@@ -18,7 +18,7 @@ def build(rng, i, hold):
     k = rng.below(n)
     stream = b""
     acts = []
-    wu, ws, wb = [], [], []
+    wu, ws, wb, hd = [], [], [], []
     holdpos = None
     for q in range(n):
         tag = "%d.%d" % (i, q)
@@ -30,7 +30,9 @@ def build(rng, i, hold):
                 fr = "cl"
             size = rng.choice([0, 5, 1024, 1025, 5000]) if fr == "cl" else rng.choice([5, 3000])
             body = body_bytes(tag, size)
-            r = AReq(method="POST", target="/e" + tag, version="1.1", headers=[("Host", "h")], framing=fr, body=body,
+            # the expectation is the client's, whatever the method (a HEAD request with a body included)
+            meth = rng.choice(["POST", "POST", "PUT", "HEAD", "GET", "DELETE"])
+            r = AReq(method=meth, target="/e" + tag, version="1.1", headers=[("Host", "h")], framing=fr, body=body,
                      chunks=random_chunks(rng, size) if fr == "chunked" else None,
                      expect=(rng.choice(["100-continue", "100-Continue", "100-CONTINUE"]) if expects else None))
             if v10:
@@ -50,6 +52,7 @@ def build(rng, i, hold):
             stream += r.render()
             acts.append(action_str(reads, fin))
             wu.append(hx(r.target))
+            hd.append("1" if meth == "HEAD" else "0")
             if expects and reads:
                 ws.append("100")
             ws.append(st)
@@ -76,9 +79,10 @@ def build(rng, i, hold):
             stream += r.render()
             acts.append(action_str([], respond_str(200, b"p", True)))
             wu.append(hx(r.target))
+            hd.append("0")
             ws.append("200")
             wb.append("-")
-    extra = "wu=%s ws=%s wb=%s we=closed" % (j(wu), j(ws), j(wb))
+    extra = "wu=%s ws=%s wb=%s hd=%s we=closed" % (j(wu), j(ws), j(wb), j(hd))
     if hold and holdpos is not None and holdpos < len(stream):
         extra += " hold=%d" % holdpos
     return cv_line(stream, acts, extra=extra), {"n": n, "position": k, "withholding_client": bool(hold), "http10": int(v10)}
